@@ -21,7 +21,14 @@ ASSUMPTIONS = ["expected string = cp1252 image table (vf/ref/cp1252.py) decoded 
 FLOORS = {"reads-compared": 1000, "strings-compared": 100}
 
 
+
 def shards(tier, seed):
+    from vf import engine
+
+    return engine.with_interpreter_options(_plain_shards(tier, seed))
+
+
+def _plain_shards(tier, seed):
     if tier == "quick":
         return [{"n": 2500, "maxops": 12, "part": p} for p in range(16)] + [{"sweep": (lo, lo + 275), "part": 100 + lo} for lo in range(0, 2200, 275)] + [{"threads": 3, "part": 999}]
     return [{"n": 15625, "maxops": 40, "part": p} for p in range(64)] + [{"sweep": (lo, lo + 1100), "part": 100 + lo} for lo in range(0, 13200, 1100)] + [{"sweep": (c - 3, c + 4), "part": 100 + c} for c in (16384, 32768, 65536)] + [{"threads": 10, "part": 999}]
